@@ -195,4 +195,7 @@ func c10Anchored(p *Prog, r *Report) {
 	}
 	r.Count("c10.stored_timers", nt)
 	r.Floor(R, "c10.stored_timers", 5)
+
+	r.Describe("C10.8/handshaker", "closing a listener closes every connection still handshaking or waiting to be accepted; a handshake that completes after Close is closed by its worker")
+	handshakerRules(p, r, "C10.8/handshaker")
 }
